@@ -52,10 +52,15 @@ CHECKS = {
                      "the secret store keeps no state outside the datastore handed to its constructor (so a datastore clone is a state clone)"],
     ),
     "C14": dict(
-        harness="pkg__secretstore", run="TestVerifC14", level="model_checking",
+        level="model_checking",
+        parts=[
+            dict(name="states", harness="pkg__secretstore", run="TestVerifC14"),
+            dict(name="concurrent", harness="pkg__secretstore", run="TestVerifC14Conc", variant="sched-secret", gomaxprocs=2, shards={"quick": 4, "thorough": 8}),
+        ],
         technique="explicit-state BFS over the receiver's complete datastore with log-open / push-open / register transitions against a reference model, plus exhaustive bit flips of a push payload in representative states",
         rule="states = distinct full datastore dumps; every state expanded with log-open(k), push-open(k), register; in every successor every message the reference calls log-openable is probed through the log on a clone; distinct classes = (transition kind, expectation, outcome, error class)",
-        assumptions=["log-open is modelled as OpenEnvelopePayload followed by UpdateOutOfStoreGroupReferences, the two calls MessageStore.processMessage makes",
+        assumptions=["part 'concurrent': the push path and the log path of one sender's messages run at the same time on the real store under the controlled scheduler (preemption bound 2 / 3); afterwards the log path must open what the reference calls openable and delivered messages must open from their push payload, flagged as received",
+                     "log-open is modelled as OpenEnvelopePayload followed by UpdateOutOfStoreGroupReferences, the two calls MessageStore.processMessage makes",
                      "windows 1..3, reference windows 1..3 and n<=5 enumerated; defaults (100/100) not enumerated",
                      "the gRPC wrapper OutOfStoreReceive is a direct call of OpenOutOfStoreMessage and is not driven separately"],
     ),
